@@ -276,7 +276,7 @@ Lemma vertical_line_quad : forall A B ex ey,
 Proof.
   intros [xa ya] [xb yb] ex ey. unfold vertical. rewrite Qred_correct.
   unfold degree. cbn [length Nat.sub].
-  replace (3 + ex + ey + 1)%nat with (ex + ey + 4)%nat by lia.
+  replace (vertical_nodes 1 ex ey) with (ex + ey + 4)%nat by (unfold vertical_nodes; lia).
   set (n := (ex + ey + 4)%nat).
   change (quad (nc_w n) (open_linspace n)
             (fun t => Qpow (px (eval [(xa, ya); (xb, yb)] t)) ex *
